@@ -10,6 +10,7 @@ import (
 	"os"
 	"path/filepath"
 	"sort"
+	"strings"
 	"time"
 
 	"github.com/superfly/litefs"
@@ -556,5 +557,137 @@ func importDuringCommits(c *common.Ctx, r *common.Rand) error {
 		c.Evaluations++
 		c.Violate("C09:import-during-commits:image", fmt.Sprintf("position %s, database checksums to %016x", pos, got.Checksum()), rep)
 	}
+	return nil
+}
+
+// unusableSnapshot: a replica that holds a chain of files is sent a snapshot (a file that starts at transaction 1 and
+// replaces the whole chain) whose body is cut off half-way, or arrives damaged. Nothing of it is used: the log is what it
+// was - every file still there - and ends at the database's position.
+func unusableSnapshot(c *common.Ctx, r *common.Rand, mode string) error {
+	dir, err := os.MkdirTemp(c.OutDir, "c09u-")
+	if err != nil {
+		return err
+	}
+	defer os.RemoveAll(dir)
+	clu := cluster.New(dir, 2*time.Second)
+	p, err := clu.Start("p", true)
+	if err != nil {
+		return err
+	}
+	if clu.WaitPrimary(5*time.Second) == nil {
+		clu.Close()
+		return fmt.Errorf("no primary")
+	}
+	rn, err := clu.Start("r", false)
+	if err != nil {
+		clu.Close()
+		return err
+	}
+	ps := 512
+	hp := hist.NewOn(c, r.Fork(), hist.Config{PageSize: ps}, p.Store, p.Exits, "db", nil, 0, false)
+	if err := commitN(hp, 3); err != nil {
+		clu.Close()
+		return err
+	}
+	pp := p.Store.DB("db").Pos()
+	if !cluster.WaitPos(rn, "db", uint64(pp.TXID), uint64(pp.PostApplyChecksum), 10*time.Second) {
+		clu.Close()
+		return fmt.Errorf("replica did not catch up")
+	}
+	clusterID := p.Store.ClusterID()
+	clu.Close()
+	rdir := filepath.Join(dir, "r")
+	list := func() string {
+		ents, _ := os.ReadDir(filepath.Join(rdir, "dbs", "db", "ltx"))
+		var a []string
+		for _, e := range ents {
+			if strings.HasSuffix(e.Name(), ".ltx") {
+				a = append(a, e.Name())
+			}
+		}
+		return strings.Join(a, ",")
+	}
+	before := list()
+
+	// another history's snapshot: 6 pages at transaction 5
+	other := &lfs.Image{PageSize: ps}
+	pages := map[uint32][]byte{}
+	for pg := uint32(1); pg <= 6; pg++ {
+		d := lfs.MakePage(ps, pg, 880000+uint64(pg), 6, false)
+		other.Pages = append(other.Pages, d)
+		pages[pg] = d
+	}
+	snap := buildLTX(uint32(ps), 6, 1, 5, 0, other.Checksum(), pages)
+	if mode == "damaged" {
+		snap[len(snap)/2] ^= 0x40
+	}
+	served := make(chan struct{}, 4)
+	ln, err := net.Listen("tcp", "localhost:0")
+	if err != nil {
+		return err
+	}
+	srv := &http.Server{Handler: h2c.NewHandler(http.HandlerFunc(func(w http.ResponseWriter, req *http.Request) {
+		if req.URL.Path != "/stream" {
+			http.NotFound(w, req)
+			return
+		}
+		_, _ = lfshttp.ReadPosMapFrom(req.Body)
+		w.Header().Set("Litefs-Cluster-Id", clusterID)
+		w.Header().Set("Litefs-Id", "0000000000001093")
+		w.WriteHeader(200)
+		w.(http.Flusher).Flush()
+		_ = litefs.WriteStreamFrame(w, &litefs.LTXStreamFrame{Name: "db"})
+		cw := verif.NewChunkWriter(w)
+		if mode == "cut" {
+			_, _ = cw.Write(snap[:len(snap)*2/3])
+			w.(http.Flusher).Flush()
+			served <- struct{}{}
+			return // the connection ends inside the body
+		}
+		_, _ = cw.Write(snap)
+		_ = cw.Close()
+		w.(http.Flusher).Flush()
+		served <- struct{}{}
+		select {
+		case <-req.Context().Done():
+		case <-time.After(300 * time.Millisecond):
+		}
+	}), &http2.Server{})}
+	go func() { _ = srv.Serve(ln) }()
+	defer srv.Close()
+
+	var exits []int
+	s := litefs.NewStore(rdir, false)
+	s.Exit = func(code int) { exits = append(exits, code) }
+	s.Client = lfshttp.NewClient()
+	s.ReconnectDelay = time.Hour
+	s.RetentionMonitorInterval = 0
+	s.Leaser = litefs.NewStaticLeaser(false, "fake", "http://"+ln.Addr().String())
+	if err := s.Open(); err != nil {
+		return nil
+	}
+	select {
+	case <-served:
+	case <-time.After(5 * time.Second):
+	}
+	time.Sleep(200 * time.Millisecond)
+	np := s.DB("db").Pos()
+	_ = s.Close()
+	c.Evaluations++
+	c.Distinct("unusable-snapshot:" + mode)
+	rep := map[string]any{"kind": "unusable-snapshot", "mode": mode}
+	what := "after a snapshot whose body was " + mode + " was streamed to a replica that holds a chain of three files"
+	if np != pp {
+		c.Violate("C09:unusable-snapshot:position:"+mode, fmt.Sprintf("%s the replica is at %s (was at %s)", what, np, pp), rep)
+		return nil
+	}
+	if len(exits) > 0 {
+		c.Count("unusable_snapshot_exit", 1)
+	}
+	if after := list(); after != before {
+		c.Violate("C09:unusable-snapshot:log:"+mode, fmt.Sprintf("%s its log went from [%s] to [%s] while the database stays at %s", what, before, after, np), rep)
+		return nil
+	}
+	checkStoredChain(c, filepath.Join(rdir, "dbs", "db"), uint64(np.TXID), uint64(np.PostApplyChecksum), "C09:unusable-snapshot:"+mode, what, rep)
 	return nil
 }
